@@ -27,7 +27,7 @@ Ev == Rec[l]
 
 Init == l = 1 /\ snap = [none |-> TRUE] /\ kind = "none"
 Next == /\ l <= Len(Rec)
-        /\ Ev.ev \in {"FInit", "Snap", "Closed", "Dropped", "Op", "Est"}
+        /\ Ev.ev \in {"FInit", "Snap", "Closed", "Dropped", "Op", "Est", "Chain", "Hammer"}
         /\ l' = l + 1 /\ snap' = Ev /\ kind' = Ev.ev
 Spec == Init /\ [][Next]_<<l, snap, kind>>
 
@@ -72,6 +72,25 @@ FOpsComplete == (kind = "Op") => snap.completed
 EstOf(i) == LET S == { j \in 1 .. Len(snap.est) : snap.est[j][1] = i } IN IF S = {} THEN 0 ELSE snap.est[CHOOSE j \in S : TRUE][2]
 FEstimates == (kind = "Est" /\ snap.polq = 0 /\ snap.total < snap.nc) =>
     \A j \in 1 .. Len(snap.kept) : EstOf(snap.kept[j][1]) >= (IF snap.kept[j][2] < 16 THEN snap.kept[j][2] ELSE 16)
+
+\* C09, PARALLEL writers of one resident key (free-running threads, no scheduler): InsBegin of Cache.tla takes the
+\* validator's verdict on the CURRENT value and replaces it in one step.  The validator logs its calls in the order
+\* it is entered; replayed as InsBegin steps on one key they must form a chain: every call saw the value left by
+\* the latest approved call before it, its verdict is the predicate's, and the key ends with the last approved value.
+ShouldUpdate(p, n) == (p + 2 * n) % 5 # 0          \* the harness' asymmetric predicate (Asym3 of Cache.tla's Veto)
+RECURSIVE CurAfter(_, _, _)
+CurAfter(init, calls, j) == IF j = 0 THEN init
+                            ELSE IF calls[j][3] THEN calls[j][2] ELSE CurAfter(init, calls, j - 1)
+FChain == (kind = "Chain") =>
+    /\ \A j \in 1 .. Len(snap.calls) :
+          /\ snap.calls[j][1] = CurAfter(snap.init, snap.calls, j - 1)
+          /\ snap.calls[j][3] = ShouldUpdate(snap.calls[j][1], snap.calls[j][2])
+    /\ snap.final = CurAfter(snap.init, snap.calls, Len(snap.calls))
+    /\ Len(snap.calls) = snap.writes              \* every write of a resident key consults the validator exactly once
+\* C17, PARALLEL lookups: Get of Cache.tla adds exactly one to hit or to miss, atomically, whatever other clients do
+FHammer == (kind = "Hammer") =>
+    /\ snap.hit + snap.miss = snap.lookups
+    /\ snap.hit = snap.found
 
 Accepted ==
     IF TLCGet("stats").diameter - 1 = Len(Rec) THEN TRUE
